@@ -269,7 +269,23 @@ func (s *scen) reply(c kafka.VerifCoordCall) kafka.VerifCoordReply {
 			if i == len(codes) {
 				return kafka.VerifCoordReply{Err: netErr}
 			}
-			return kafka.VerifCoordReply{Err: kafka.Error(codes[i])}
+			// byte-level path: the refusal is on every entry of the answer, on the last one only, or on one entry anywhere
+			// (entries in the order of the request the library sent); the coordinator's decision is "refused" in all three
+			r := kafka.VerifCoordReply{Err: kafka.Error(codes[i])}
+			n := 0
+			for _, ps := range c.Offsets {
+				n += len(ps)
+			}
+			switch s.rng.Intn(3) {
+			case 1:
+				r.ErrLast = true
+			case 2:
+				if n > 0 {
+					r.Codes = make([]int16, n)
+					r.Codes[s.rng.Intn(n)] = int16(codes[i])
+				}
+			}
+			return r
 		}
 		return kafka.VerifCoordReply{}
 	}
@@ -632,6 +648,10 @@ func main() {
 		}
 		return
 	}
+	if len(os.Args) > 1 && os.Args[1] == "partial" {
+		scenarioPartialRefusal(rng)
+		return
+	}
 	if len(os.Args) > 1 && os.Args[1] == "multipart" {
 		for i := 0; i < 4; i++ {
 			multiPartScenario(rng)
@@ -660,6 +680,7 @@ func main() {
 	scenarioD8Reader()
 	scenarioD30()
 	scenarioLateLoop()
+	scenarioPartialRefusal(rng)
 	for i := 0; i < nT; i++ {
 		topics := [][]string{{"t"}, {"t", "u"}, {"a", "b", "c"}}[rng.Intn(3)]
 		s := newScen(rng, topics, rng.Intn(2) == 0, []int{0, 10, 20}[rng.Intn(3)])
